@@ -256,7 +256,9 @@ def callsites(chk, repo, it0, ms, md, S, D):
         return NotImplemented
 
     def branch_hook(itp, st, v, fr):
-        return False        # type()/isinstance()/array-vs-scalar tests: scalar path
+        if isinstance(v, Opaque) and v.name == 'isinstance':
+            return False    # isinstance(x, np.ndarray) on a symbolic scalar: the scalar path (array inputs have their own pass)
+        return None         # everything else: sign domain, then forked, else the analysis fails closed
 
     it = Interp(repo, hooks={'call': call_hook, 'branch': branch_hook}, max_depth=10)
     host = X.atom('HOST_MASS', 'pos'); tm = X.atom('TARGET_MASS', 'pos'); moi = X.atom('TARGET_MOI', 'pos')
@@ -491,7 +493,9 @@ def entry_points(chk, repo):
     def branch_hook(itp, st, v, fr):
         if isinstance(v, Opaque) and v.name.startswith('tolerance test'):
             return None
-        return False
+        if isinstance(v, Opaque) and v.name == 'isinstance':
+            return False    # isinstance(x, np.ndarray) on a symbolic scalar: the scalar path (array inputs have their own pass)
+        return None         # everything else: sign domain, then forked, else the analysis fails closed
     Gc = X.atom('const_G', 'pos')
     e = X.atom('e', 'pos'); n = X.atom('n', 'pos')
     d = X.Decider(seed=chk.seed + 91, k=2, positive=[X.atom('M0', 'pos') + X.atom('M1', 'pos'), 1 - e * e], mask_hook=eps_mask)
